@@ -46,6 +46,10 @@ def piecewise(soc, pts):
     return pts[-1][1]
 
 
+class Runaway(BaseException):
+    """the depletion loop does not end although the model's capacity must run out"""
+
+
 class Battery:
     def __init__(self, m):
         self.m = m
@@ -62,6 +66,8 @@ class Battery:
         return s_
 
     def dfunc(self, t, i):
+        if len(self.calls) > self.m.get("max_calls", 5000):
+            raise Runaway()
         self.cap -= t * i / 3600.0
         s_ = self.state()
         self.calls.append(("deplete", float(t), float(i), s_))
@@ -119,7 +125,8 @@ def body(case, stats):
             # steep last segment)
             volt = [(0.0, 0.5 * volt[-1][1]), (soc_cut, volt[-1][1]), (1.0, volt[-1][1])]
             cutoff = 0.75 * volt[-1][1]
-    model = {"c0": c0, "volt": volt, "res": m["res"]}
+    expect_calls = (m["cycles"] * len(phases)) if phases else 1000
+    model = {"c0": c0, "volt": volt, "res": m["res"], "max_calls": int(20 * expect_calls) + 50}
     bat = Battery(model)
     sys = B.build(spec)
     tags = {"run": 7}
@@ -131,6 +138,10 @@ def body(case, stats):
     except (ValueError, RuntimeError) as e:
         stats.cls("batt_life_raised:" + type(e).__name__)
         raise Skip("not_solved")
+    except Runaway:
+        raise Fail("runaway", "batt_life made more than {} deplete calls on a battery of {} Ah "
+                   "whose capacity must run out much earlier; last calls {}".format(
+                       model["max_calls"], model["c0"], bat.calls[-2:]))
     calls = bat.calls
     if not calls or calls[0][0] != "probe":
         raise Fail("first_call", "first callback call is {}".format(calls[:1]))
